@@ -164,3 +164,22 @@ Proof.
   intros a b c Ha Hb Hc Ca Cb Cc Ra Rb Rc. unfold run_thread. apply (oplan_concat clock clock_eqb ccall ccall_eqb).
   intros q [<-|[<-|[<-|[]]]]; cbn; apply site_thread_oplan; auto.
 Qed.
+
+(** NO LOCK OUTLIVES ITS RUN: in every reachable state of any number of goroutines running runs of fragments,
+    a goroutine that has finished its run holds no lock (and while it runs, what it holds is what discipline D
+    allows at that point of its plan).  With [runs_no_deadlock] and [step_decreases] (every step consumes an
+    action): every execution ends with every goroutine finished and every lock free. *)
+Theorem runs_finished_hold_nothing : forall (ths : list (list (site * (snode -> node)))),
+  (forall run st rho, In run ths -> In (st, rho) run -> In st sites /\ carries st = true /\ respects rho (full_path st)) ->
+  forall s, creachable (map run_thread ths) s ->
+  forall i t, nth_error s i = Some t -> rest t = [] -> held t = [].
+Proof.
+  intros ths H s Hr i t Hn Hrest.
+  assert (TI : coplan (held t) (rest t)).
+  { refine (thread_inv clock clock_eqb ccall ccall_eqb (fun t => coplan (held t) (rest t)) _ (map run_thread ths) _ s Hr i t Hn).
+    - intros s0 k t0 t0' Ht Hs. inversion Hs; subst; cbn in *; tauto.
+    - intros p Hp. apply in_map_iff in Hp. destruct Hp as [run [<- Hin]]. unfold run_thread. cbn.
+      apply (oplan_concat clock clock_eqb ccall ccall_eqb). intros q Hq. apply in_map_iff in Hq. destruct Hq as [[st rho] [<- Hx]].
+      destruct (H run st rho Hin Hx) as [A [B C]]. cbn. apply site_thread_oplan; auto. }
+  rewrite Hrest in TI. exact TI.
+Qed.
